@@ -68,7 +68,7 @@ CHECKS["C05"] = {
 	"technique": BMCT,
 }
 CHECKS["C07"] = {
-	"text": "The real Folder::get_data composed with a byte-level model of std::path (join/starts_with) and File::open as the I/O boundary: for EVERY request of up to 3 (quick) / 9 (thorough) bytes over {'/','.','a','%','2','e','\\'} the path handed to File::open resolves inside the root. "
+	"text": "The real Folder::get_data composed with a byte-level model of std::path (join/starts_with) and File::open as the I/O boundary: for EVERY request of up to 4 (quick) / 9 (thorough) bytes over {'/','.','a','%','2','e','\\'} the path handed to File::open resolves inside the root. "
 		"The byte-level model of Url::has_parent_segment used there is shown equal to the real helper by separate harnesses. A counterexample is replayed natively against Folder::from + get_data with a canary file outside the root.",
 	"note": "std::path functions are modelled from their documented semantics (the real Components state machine is out of reach for CBMC); symlinks, the tar source (exact-name lookup), the HTTP layer and percent-decoding (there is none) are outside the claim.",
 	"technique": BMCT + " with a std::path model; compositional (helper proven equal to its model)",
